@@ -84,6 +84,12 @@ CLAIMED = {
         text="Lean theorems for every enum and value: is_x iff the value is x and exactly one is_* is true, unwrap_x* returns the payload iff the value is x and otherwise panics, try_unwrap_x* returns the unchanged input in the error, TryFrom<Enum> for (tys) succeeds with the non-ignored fields in order exactly for variants whose non-ignored types equal tys and otherwise returns the input, grouping is a partition independent of variant order. The model of State's enabled/owned/ref/ref_mut bookkeeping and of the four derives is compared with the working-tree expansions on 2400 generated enums; 26 enums are run with the real macro: all accessors on all variant values (results, panics, error payloads, addresses of reference forms) and a reference-kind selection grid",
         note="Lean kernel; model tied by differential run; snake_case is a parameter; TryInto impl order is C19's subject (compared as a set here)",
         ref="DESIGN.md §4 C11"),
+    "C14": dict(
+        level="proof",
+        technique="Lean 4 theorems about State's single-field selection and the delegating method bodies with an address-level semantics + token-level correspondence with the working-tree expansions + run-time address/content comparison with the real macro",
+        text="Lean theorems for every struct and attribute placement: at most one field is selected and the generated body refers to exactly that field; without forward the returned object is the field's own storage; with forward / Index / IntoIterator / a listed other type it is exactly the field's own implementation applied to the field; a listed type equal to the field type (token-equal: direct; rustc-equal via the autoref helper: specialised) yields the field itself; the owned / ref / ref_mut IntoIterator impls iterate the same field. The model of State (struct + field attributes, ignore / forward / owned / ref / ref_mut) and of the seven derives is compared on 3500 generated structs with the working-tree expansions (selected member, Target / return type, body tokens); 43 structs are run with the real macro: addresses, write-through, neighbour fields untouched, alias / path spelled field types with a reflexive AsRef that returns a different object, all three iteration forms",
+        note="Lean kernel; model tied by differential run; which ExtractRef impl rustc's autoref probing selects is modelled by a boolean and validated by running src/as.rs, not proved",
+        ref="DESIGN.md §4 C14"),
 }
 
 NOT_APPLICABLE = {}
